@@ -15,7 +15,10 @@
    LISTS with repeated keys Go's Tags.Find returns the first match; the theorems say so
    explicitly: the answer is the specification's answer for the list with later duplicates
    removed (C18_way_polygon_any_tag_list), and an Example shows that order does matter then.
-   A tag with the empty value counts as absent (Find returns "" for "not found"). *)
+   Empty values.  The literal rule (published_polygon) treats a listed key with an empty value as
+   present; the code cannot (Find returns "" for "not found").  This is NOT hidden in the spec:
+   C18_way_polygon_published holds outside the class, C18_empty_value_refuted inside it (known
+   finding); C18_way_polygon_spec says what the code does everywhere. *)
 From Coq Require Import String List Bool Arith ZArith Permutation.
 From Verif Require Import C18.Model C18.Spec C18.Equiv C18.StrOrder C18.Proofs C18.GenOk C18.Main C18.Tags.
 From Verif Require Import C18.GenSupport C18.GenOkCode.
@@ -73,17 +76,68 @@ Theorem C18_sorted_permutation_unique : forall l1 l2 : list string,
 Proof. exact sorted_perm_unique. Qed.
 Print Assumptions C18_sorted_permutation_unique.
 
-(* finite checks on the table re-read from /repo on this run *)
-Theorem C18_runtime_table_sorted : table_sortedb RT = true.
-Proof. exact gen_table_sorted. Qed.
+(* The code's own init(): finite checks on the RUN-TIME DUMP of polyConditions, printed after
+   init() by a program run against /repo at translation time (GenPolygon.poly_runtime_rules,
+   Model.runtime_table).  These two are about /repo's init(), not about the model of it: without
+   the sort loop, or with a partial one, the first fails. *)
+Theorem C18_runtime_table_sorted : table_sortedb runtime_table = true.
+Proof. exact gen_runtime_dump_sorted. Qed.
 Print Assumptions C18_runtime_table_sorted.
 
-Theorem C18_runtime_table_same_sets_as_published : table_matchesb RT SpecTable = true.
-Proof. exact gen_table_matches_published. Qed.
+(* what init() built is what the model of init builds from the source literal ... *)
+Theorem C18_runtime_table_is_model_table : runtime_table = RT.
+Proof. exact runtime_table_is_RT. Qed.
+Print Assumptions C18_runtime_table_is_model_table.
+
+(* ... and the MODEL's init sorts (an instance of C18_init_sorts_any_table: says nothing about
+   /repo by itself) *)
+Theorem C18_model_init_table_sorted : table_sortedb RT = true.
+Proof. exact gen_table_sorted. Qed.
+
+(* the table (source literal through the model's init = run-time dump) has the published rules *)
+Theorem C18_runtime_table_same_sets_as_published :
+  table_matchesb RT SpecTable = true /\ table_matchesb runtime_table SpecTable = true.
+Proof. rewrite runtime_table_is_RT. split; exact gen_table_matches_published. Qed.
 Print Assumptions C18_runtime_table_same_sets_as_published.
 
 (* ---- 3. Way.Polygon = the published rules ---- *)
 
+(* THE PROPERTY, literally (Spec.published_polygon: a listed key counts when it is PRESENT with a
+   value other than "no"; an empty value is a value):
+
+     FULL STATEMENT (false of the code, see C18_empty_value_refuted):
+       forall nodes ts, NoDup (keys ts) ->
+         exists b, way_polygon RT nodes ts = Val b /\ (b = true <-> published_polygon nodes ts).
+
+   The code reads tags through Tags.Find, which returns "" both for an absent key and for a key
+   present with an empty value, so a listed key with an empty value is skipped where the
+   published rule (osmtogeojson) counts it.  KNOWN FINDING, class "empty-value-on-listed-key"
+   (known_findings.d/C18.json).  Proved outside that class: *)
+Theorem C18_way_polygon_published : forall (nodes : list Z) (ts : tags),
+  NoDup (keys ts) -> no_empty_listed ts ->
+  exists b, way_polygon RT nodes ts = Val b /\ (b = true <-> published_polygon nodes ts).
+Proof. exact way_polygon_RT_published. Qed.
+Print Assumptions C18_way_polygon_published.
+
+(* ... and refuted inside it: building="" on a closed ring *)
+Theorem C18_empty_value_refuted :
+  exists nodes ts,
+    NoDup (keys ts) /\ way_polygon RT nodes ts = Val false /\ published_polygon nodes ts.
+Proof. exact empty_value_refuted. Qed.
+Print Assumptions C18_empty_value_refuted.
+
+(* the two readings agree exactly outside the class *)
+Theorem C18_published_iff_spec : forall ts : tags,
+  no_empty_listed ts -> (published_area SpecTable ts <-> spec_area SpecTable ts).
+Proof. exact published_area_iff_spec_area. Qed.
+
+Theorem C18_published_oracle_is_spec : forall (nodes : list Z) (ts : tags),
+  nodupb (keys ts) = true ->
+  (published_polygonb nodes (lookup_opt ts) = true <-> published_polygon nodes ts).
+Proof. exact published_oracle_is_spec. Qed.
+
+(* What the code does on ALL tag sets, the class included: the rules with an empty value read as
+   absent (Spec.spec_polygon). *)
 (* tag sets: for ALL node lists and ALL tag lists with distinct keys the function returns
    normally and says "area" exactly when the declarative specification does *)
 Theorem C18_way_polygon_spec : forall (nodes : list Z) (ts : tags),
@@ -282,6 +336,8 @@ Example ex_search : search_strings ["boatyard"; "dam"; "dock"; "riverbank"] "doc
 Proof. vm_compute. repeat split. Qed.
 Example ex_tag_set : NoDup (keys [("highway", "elevator"); ("name", "x"); ("area", "")]).
 Proof. repeat constructor; cbn; intuition discriminate. Qed.
+Example ex_no_empty_listed : no_empty_listedb [("highway", "elevator"); ("name", ""); ("area", "")] = true.
+Proof. reflexivity. Qed.
 (* Tie by translation: the bodies of Way.Polygon, Relation.Polygon, Tags.Find, Tags.FindTag,
    Tags.HasTag, Tags.Map and Tags.AnyInteresting, regenerated from polygon.go / tag.go on every
    run (VerifGen.GenPolygonCode), are the model's functions, for all inputs and every rule table
